@@ -209,10 +209,11 @@ META = {
     'technique': 'static analysis: interprocedural write-set/alias summaries (EFFECTS, ALIASINPLACE), attribute writer sets '
                  '(WHOWRITES), symbolic slice terms with interval reasoning over min/max/clip (RANGE, AGREE)',
     'level': "Decides from the source that add_signal's only effect is `self.data[:, lo:hi] += signal`, that the returned "
-             'frame is zeros with the same signal in the same columns, that both slice bounds are clipped into [0, fchans] for'
-             ' every bounding range (no wrap-around), that the frequencies evaluated (also the sub-sampled grid of '
-             'integrate_f_profile) start at and span exactly the written columns, that no caller array / axis / generator is '
-             'touched and that the noise estimates are written only by the noise routines. Bit-for-bit equality and '
-             'commutation of float additions are not decided.',
+             'frame is zeros with the same signal in the same columns, that get_index is the unclamped rounded offset (so an '
+             'exclusive upper bound can reach fchans), that both slice bounds are clipped into [0, fchans] for every bounding '
+             'range (no wrap-around), that the frequencies evaluated (also the sub-sampled grid of integrate_f_profile) start '
+             'at and span exactly the written columns, that no caller array / axis / generator is touched and that the noise '
+             'estimates are written only by the noise routines. Bit-for-bit equality and commutation of float additions are '
+             'not decided.',
     'note': 'Alias analysis is name/attribute-path based; numpy constructors and meshgrid (default copy=True) are treated as fresh.',
 }
